@@ -7,7 +7,7 @@ hprop.install(globals(), hprop.HistoryProperty(
     prop="C18",
     monitors=lambda: [C18Queue()],
     profile=profile(nv=(4, 9), n_requests=(0, 0), socs=[0.9, 0.95, 0.97, 0.985, 0.99, 0.5, 0.5, 0.03, 0.06], shortest_time=False, mechs=["leaf_50", "leaf_50", "tiny_bev", "tiny_bev", "toyota_corolla"],
-                    stations=(1, 1), bases=(1, 1), max_plugs=1, max_ptypes=2, plug_types=["DCFC", "LEVEL_2", "DCFC", "GAS_PUMP"], humans=True, human_share=[False, False, True], builtin=[False, False, True], fleets=[0], soc_limits=[1.0, 1.0, 0.8], steps=[30, 60, 60, 120]),
+                    stations=(1, 1), bases=(1, 1), max_plugs=1, max_ptypes=2, plug_types=["DCFC", "LEVEL_2", "DCFC", "GAS_PUMP"], humans=True, human_share=[False, True], builtin=[False, False, True], fleets=[0], soc_limits=[1.0, 1.0, 0.8], steps=[30, 60, 60, 120]),
     nontrivial=lambda f: {"queue_of_three", "grant_from_queue"} <= f,
     rule=("stateful histories over generated worlds with 1-2 stations of one plug per type and 4-9 vehicles (a third of them with human drivers whose shifts flip while they queue) starting at 90-99 % charge "
           "(sessions end by themselves) or at 3-6 % (they run flat while they wait), vehicle ids whose lexical order differs from arrival order; vehicles are sent to the same plug "
